@@ -737,6 +737,21 @@ func genFrames(rt *rapid.T, n int, maxLen int) []string {
 	return out
 }
 
+// atSizeLimit appends well-formed frames of exactly the given total sizes (unknown service, body of size-6 octets):
+// the receive buffer of the datagram sockets is 1024 octets, a frame that fills it to the last octet is complete.
+func atSizeLimit(rt *rapid.T, frames []string, sizes ...int) []string {
+	for _, n := range sizes {
+		body := make([]byte, n-6)
+		for i := range body {
+			body[i] = byte(i*13 + n)
+		}
+		b, _ := common.RefEncode(&common.RFrame{Service: 0x0533, Raw: body})
+		at := rapid.IntRange(0, len(frames)).Draw(rt, "limit-frame-at")
+		frames = append(frames[:at], append([]string{hex.EncodeToString(b)}, frames[at:]...)...)
+	}
+	return frames
+}
+
 // withJunk inserts 1..3 units that are correctly framed but whose body the decoder rejects (a structure length that
 // is off, a lying embedded length, a truncated body under a consistent header): the receivers skip such a unit.
 func withJunk(rt *rapid.T, frames []string, maxLen int) []string {
@@ -816,6 +831,9 @@ func genPlanC16(rt *rapid.T) c16Plan {
 		}
 	case "udp-recv", "router-recv":
 		p.Frames = genFrames(rt, rapid.IntRange(1, 40).Draw(rt, "frames"), 1024)
+		if rapid.IntRange(0, 2).Draw(rt, "size-limit") == 0 {
+			p.Frames = atSizeLimit(rt, p.Frames, rapid.SampledFrom([]int{1024, 1024, 1023, 1000}).Draw(rt, "limit-size"))
+		}
 		if rapid.IntRange(0, 3).Draw(rt, "junk") == 0 {
 			p.Frames = withJunk(rt, p.Frames, 1024)
 		}
